@@ -154,13 +154,23 @@ def tokenize(text):
 def read(text):
     toks = tokenize(text)
     phys = re.split(r"\r\n|\n", text)
+    # logical lines: a token that starts on the physical line where the previous token ended
+    # continues that token's logical line (e.g. a trailing comment after a multi-line string)
     by_line = {}
-    for t in toks:
-        by_line.setdefault(t.line, []).append(t)
     covered = {}
+    prev = None
+    cur = None
     for t in toks:
+        if prev is not None and t.line == prev.endline and prev.endline != prev.line:
+            by_line[cur].append(t)
+        elif prev is not None and t.line == prev.line == prev.endline and cur is not None and cur != t.line:
+            by_line[cur].append(t)
+        else:
+            cur = t.line
+            by_line.setdefault(cur, []).append(t)
         for ln in range(t.line + 1, t.endline + 1):
             covered[ln] = t
+        prev = t
     lines = []
     events = []
     problems = []
@@ -171,12 +181,10 @@ def read(text):
         ts = by_line.get(ln, [])
         rec = {"lineno": ln, "ws": ws, "raw": raw, "kind": None, "key": None, "toks": [], "comment": None,
                "valcol": None, "lvl": len(stack)}
-        if ln in covered and (not ts or covered[ln].endline >= ln):
-            # continuation of a multi-line token; tokens that start after it on the same line
-            # are not produced by the printer
+        if ln in covered:
+            # continuation of a multi-line token (tokens starting after its end on this physical line
+            # were attached to the logical line above)
             rec["kind"] = "cont"
-            if ts:
-                raise ReaderError("token after the end of a multi-line string on line %d" % ln)
             lines.append(rec)
             continue
         if not ts:
